@@ -29,7 +29,7 @@ LEVEL_NOTE = ("trusts the reference bridge (pvf/ref/bridge.py) and the harness-s
               "re-serialises byte-identically (that identity is C14's subject)")
 RULE = ("a case is a configuration (tree of 1-3 switches, 2-5 hosts, transparent flag, buffer pool, miss_send_len) and a history "
         "of ops: frame(host, destination class, header template, size), burst(several frames before the control channel runs), "
-        "move(host, free edge port), advance(k/8 s). Non-trivial: the history contains a move of a host that had already sent, "
+        "resend(k-th last frame, optionally reversed), move(host, free edge port), advance(k/8 s). Non-trivial: the history contains a move of a host that had already sent, "
         "or an advance of at least 10 s after a unicast flow was installed, followed by a frame addressed to the moved host / to a "
         "known host; distinct by SHA-1 of the canonical JSON of the case")
 ASSUMPTIONS = [
@@ -286,10 +286,26 @@ def run_case(case):
                 d, held, pool, msl), dst=kind)
             break
 
+    history = []                 # frame ops so far, for "r" (resend the k-th last one, possibly reversed)
+
+    def resolve(fop):
+      if fop["o"] != "r":
+        history.append(fop)
+        return fop
+      if not history:
+        f = {"o": "f", "h": 0, "d": ["h", 1], "t": 0, "v": 0, "n": 40}
+      else:
+        f = dict(history[-1 - (fop["back"] % min(len(history), 8))])
+        if fop.get("rev") and f["d"][0] == "h":
+          f["h"], f["d"] = f["d"][1] % nh, ["h", f["h"] % nh]
+      history.append(f)
+      return f
+
     for op in case["ops"]:
       o = op["o"]
       net.reset_budget(400)
-      if o == "f":
+      if o in ("f", "r"):
+        op = resolve(op)
         raw, meta = make(op)
         net.mode = "seq"
         net.inject(meta["origin"][0], meta["origin"][1], raw)
@@ -298,12 +314,12 @@ def run_case(case):
       elif o == "burst":
         net.mode = "wave"
         for fop in op["fs"]:
-          raw, meta = make(fop)
+          raw, meta = make(resolve(fop))
           net.inject(meta["origin"][0], meta["origin"][1], raw)
         w.settle()
         net.mode = "seq"
         judge(True)
-        out.label("has:burst")
+        st_["burst"] = True
       elif o == "mv":
         h = op["h"] % nh
         if free:
@@ -342,8 +358,10 @@ def run_case(case):
       out.label("has:move")
     if st_["gap_after_flow"]:
       out.label("has:gap-after-flow")
-    if st_["exhausted"]:
+    if st_["exhausted"] and pool > 0:
       out.label("has:pool-exhausted")
+    if st_.get("burst"):
+      out.label("has:burst")
     if st_["multi_hop"]:
       out.label("has:multi-hop")
     if st_["noncanon"]:
@@ -391,54 +409,63 @@ def enum_short(tier):
 
 # --------------------------------------------------------------------------- Hypothesis histories
 
-def _dest(nh):
-  return st.one_of(
-      st.tuples(st.just("h"), st.integers(0, nh - 1)).map(list),
-      st.tuples(st.just("h"), st.integers(0, nh - 1)).map(list),
-      st.tuples(st.just("h"), st.integers(0, nh - 1)).map(list),
-      st.tuples(st.just("u"), st.integers(0, 2)).map(list),
-      st.just(["b"]),
-      st.tuples(st.just("m"), st.integers(0, 3)).map(list),
-      st.tuples(st.just("bf"), st.sampled_from([0, 1, 2, 3, 0x0e, 0x0f])).map(list),
-  )
+def _dest(nh, focused):
+  h = st.tuples(st.just("h"), st.integers(0, nh - 1)).map(list)
+  rest = [st.tuples(st.just("u"), st.integers(0, 2)).map(list),
+          st.just(["b"]),
+          st.tuples(st.just("m"), st.integers(0, 3)).map(list),
+          st.tuples(st.just("bf"), st.sampled_from([0, 1, 2, 3, 0x0e, 0x0f])).map(list)]
+  return st.one_of(*([h] * (8 if focused else 3) + rest))
 
 
-def _frame(nh):
+def _frame(nh, focused):
+  if focused:
+    # conversations: few header templates so that cached flows are hit again
+    return st.fixed_dictionaries({
+        "o": st.just("f"), "h": st.integers(0, nh - 1), "d": _dest(nh, True),
+        "t": st.sampled_from([0, 0, 0, 0, 0, 0, 1, 3]), "v": st.sampled_from([0, 0, 0, 1]),
+        "n": st.sampled_from([40, 40, 40, 300])})
   return st.fixed_dictionaries({
-      "o": st.just("f"), "h": st.integers(0, nh - 1), "d": _dest(nh),
+      "o": st.just("f"), "h": st.integers(0, nh - 1), "d": _dest(nh, False),
       "t": st.sampled_from([0, 0, 0, 1, 1, 2, 3, 4, 5]), "v": st.integers(0, 1),
       "n": st.sampled_from([0, 10, 40, 40, 120, 300])})
 
 
 @st.composite
 def _history(draw, maxops):
-  n = draw(st.sampled_from([1, 1, 2, 3, 3]))
+  focused = draw(st.sampled_from([True, True, False]))
+  n = draw(st.sampled_from([1, 1, 2, 3] if focused else [1, 2, 3, 3]))
   parents = [draw(st.integers(0, i)) for i in range(n - 1)]
   nports = draw(st.integers(4, 6))
-  nh = draw(st.integers(2, 5))
-  # edge ports available: n*nports - 2*(n-1) >= 4*1 = 4 ... ensure enough
-  avail = n * nports - 2 * (n - 1)
-  nh = min(nh, avail - 1) if avail > 2 else 2
+  nh = draw(st.integers(2, 3) if focused else st.integers(2, 5))
+  avail = n * nports - 2 * (n - 1)          # edge ports; always >= 4
+  nh = min(nh, avail - 1)                   # keep one edge port free so that hosts can move
   hosts = [draw(st.integers(0, 15)) for _ in range(nh)]
-  fr = _frame(nh)
+  fr = _frame(nh, focused)
+  adv = st.fixed_dictionaries({"o": st.just("adv"),
+                               "dt": st.sampled_from([1, 8, 16, 40, 40, 72, 88, 104] if focused else ADV)})
+  rep = st.fixed_dictionaries({"o": st.just("r"), "back": st.integers(0, 7), "rev": st.booleans()})
   op = st.one_of(
-      fr, fr, fr, fr, fr,
+      fr, fr, fr, rep, rep, rep,
       st.fixed_dictionaries({"o": st.just("mv"), "h": st.integers(0, nh - 1), "to": st.integers(0, 7)}),
+      adv,
       st.fixed_dictionaries({"o": st.just("adv"), "dt": st.sampled_from(ADV)}),
-      st.fixed_dictionaries({"o": st.just("adv"), "dt": st.sampled_from(ADV)}),
-      st.fixed_dictionaries({"o": st.just("burst"), "fs": st.lists(fr, min_size=2, max_size=5)}),
+      st.fixed_dictionaries({"o": st.just("burst"), "fs": st.lists(st.one_of(fr, fr, rep), min_size=2, max_size=5)}),
   )
+  # Hypothesis' lists are short on average; ask for the length first so that long histories are common
+  ln = draw(st.sampled_from([6, 12, 25, 50, 100, 200]).filter(lambda x: x <= maxops) if maxops >= 6 else st.just(maxops))
+  ops = draw(st.lists(op, min_size=max(1, ln // 2), max_size=ln))
   return {"k": "hist",
           "transparent": draw(st.booleans()),
           "pool": draw(st.sampled_from(POOLS)),
           "msl": draw(st.sampled_from(MSL)),
           "parents": parents, "nports": nports, "hosts": hosts,
-          "ops": draw(st.lists(op, min_size=1, max_size=maxops))}
+          "ops": ops}
 
 
 def plan(tier):
   if tier == "quick":
     return [Enum("short-histories", lambda: enum_short("quick"), shards=16),
-            Hyp("histories", lambda: _history(60), examples=320, shards=16)]
+            Hyp("histories", lambda: _history(60), examples=2400, shards=16)]
   return [Enum("short-histories", lambda: enum_short("thorough"), shards=16),
-          Hyp("histories", lambda: _history(200), examples=5000, shards=16)]
+          Hyp("histories", lambda: _history(200), examples=40000, shards=16)]
